@@ -247,7 +247,48 @@ def clock_writers(chk: Check, repo: Repo) -> None:
     chk.ob("outgoing-timer", g.site(), len(rets) == 1 and ast.unparse(rets[0].value) == "self.secure_timer.get_for_outgoing_secure_wrapper().to_bytes(6, 'big')", "outgoing wrappers carry the current timer value (6 octets)", key="outgoing-timer")
 
 
+def latency_plumbing(chk: Check, repo: Repo) -> None:
+    """The tolerance the timer compares with (`latency_tolerance_ms`, the cells above) is the one the connection was
+    configured with: the value travels SecureRouting(latency_ms) -> SecureGroup(latency_ms=) -> SecureSequenceTimer(
+    latency_ms=) -> self.latency_tolerance_ms, and no hop falls back to a callee default by omitting the argument."""
+    hops = [
+        ("xknx.io.knxip_interface", "KNXIPInterface._start_secure_routing", "SecureRouting", "latency_ms"),
+        ("xknx.io.routing", "SecureRouting._init_transport", "SecureGroup", "latency_ms"),
+        (M, "SecureGroup.__init__", "SecureSequenceTimer", "latency_ms"),
+    ]
+    from ..astx import inline_locals
+    for mod, q, callee, kw in hops:
+        f = repo.func(mod, q)
+        chk.unit(f)
+        cs = [c for c in calls(f.node) if call_name(c) == callee]
+        ok = len(cs) == 1
+        detail = f"{len(cs)} `{callee}(...)` sites"
+        if ok:
+            k = next((x.value for x in cs[0].keywords if x.arg == kw), None)
+            params = {a.arg for a in f.node.args.args + f.node.args.kwonlyargs}
+            if k is None:
+                ok, detail = False, f"`{callee}(...)` is built without `{kw}=`: the callee's default replaces the configured value"
+            else:
+                src = ast.unparse(k)
+                own_attr = isinstance(k, ast.Attribute) and isinstance(k.value, ast.Name) and k.value.id == "self" and k.attr == kw
+                own_param = isinstance(k, ast.Name) and (k.id in params or kw in ast.unparse(inline_locals(f.node, k)))
+                ok = own_attr or own_param
+                detail = f"`{callee}({kw}={src})`" + ("" if ok else " is not the caller's own configured value")
+        chk.ob("configured-latency-tolerance-reaches-the-timer", f.site(cs[0] if cs else None), ok, f"{q}: {detail}", key=f"latency|{q}")
+    ini = repo.func("xknx.io.routing", "SecureRouting.__init__")
+    asg = [n for n in walk_local(ini.node) if isinstance(n, ast.Assign) and ast.unparse(n.targets[0]) == "self.latency_ms"]
+    ok = len(asg) == 1 and any(isinstance(x, ast.Name) and x.id == "latency_ms" for x in ast.walk(asg[0].value))
+    chk.ob("configured-latency-tolerance-reaches-the-timer", ini.site(), ok, "SecureRouting.latency_ms is set from its latency_ms argument (default only when none is given)", key="latency|SecureRouting.__init__")
+    ti = repo.func(M, "SecureSequenceTimer.__init__")
+    asg = [n for n in walk_local(ti.node) if isinstance(n, (ast.Assign, ast.AnnAssign)) and ast.unparse(n.targets[0] if isinstance(n, ast.Assign) else n.target) == "self.latency_tolerance_ms"]
+    ok = len(asg) == 1 and ast.unparse(asg[0].value) == "latency_ms"
+    chk.ob("configured-latency-tolerance-reaches-the-timer", ti.site(), ok, "SecureSequenceTimer.latency_tolerance_ms = latency_ms", key="latency|timer")
+    ws = [w for w in attr_writes(repo, "latency_tolerance_ms", include_mutators=False)]
+    chk.ob("configured-latency-tolerance-reaches-the-timer", ti.site(), {w.func.qualname for w in ws} == {"SecureSequenceTimer.__init__"}, f"latency_tolerance_ms is written only in {sorted({w.func.qualname for w in ws})}", key="latency|writers")
+
+
 def run(chk: Check, repo: Repo) -> None:
+    latency_plumbing(chk, repo)
     table_group(chk, repo)
     timer_tables(chk, repo)
     clock_writers(chk, repo)
